@@ -105,6 +105,48 @@ def gen_tasks(tier, seed):
                           "kwargs": {"k": k + 1, "weight_type": "int", "additional_starts": [v], "additional_ends": [w]}})
             tasks.append({**base, "cls": "kPathCoverCycles", "edges": es, "starts": [v], "ends": [w],
                           "kwargs": {"k": k + 1, "additional_starts": [v], "additional_ends": [w]}})
+    # empty layers allowed (the option that the given-weights searches switch on): every cyclic class, on every curated graph
+    # with several sources or sinks (always, not sampled), with and without safe sequences
+    for name, es in F.CURATED_DIGRAPHS.items():
+        G = nx.DiGraph(es)
+        if sum(1 for v in G if G.in_degree(v) == 0) < 2 and sum(1 for v in G if G.out_degree(v) == 0) < 2:
+            continue
+        wf = I.walk_flow(es, rng)
+        if wf is None:
+            continue
+        fl, walks, wts = wf
+        k = len(walks)
+        wedges = I.with_flow(es, fl)
+        arb = I.with_flow(es, I.arbitrary_weights(es, rng, (1, 2, 3)))
+        base = {"name": name, "starts": [], "ends": [], "allow_empty": True}
+        for oo in ({"allow_empty_walks": True}, {"allow_empty_walks": True, "optimize_with_safe_sequences": False}):
+            tasks.append({**base, "cls": "kFlowDecompCycles", "edges": wedges, "kwargs": {"k": k + 1, "weight_type": "int", "optimization_options": dict(oo)}})
+            tasks.append({**base, "cls": "kLeastAbsErrorsCycles", "edges": arb, "kwargs": {"k": 1, "weight_type": "int", "optimization_options": dict(oo)}})
+            tasks.append({**base, "cls": "kMinPathErrorCycles", "edges": arb, "kwargs": {"k": 2, "weight_type": "int", "optimization_options": dict(oo)}})
+            tasks.append({**base, "cls": "kPathCoverCycles", "edges": es, "kwargs": {"k": 2, "optimization_options": dict(oo)}})
+    for name, es in F.CURATED_DAGS.items():
+        G = nx.DiGraph(es)
+        if sum(1 for v in G if G.in_degree(v) == 0) < 2 and sum(1 for v in G if G.out_degree(v) == 0) < 2:
+            continue
+        arb = I.with_flow(es, I.arbitrary_weights(es, rng, (1, 2, 3)))
+        base = {"name": name, "starts": [], "ends": [], "allow_empty": True}
+        for oo in ({"allow_empty_paths": True}, {"allow_empty_paths": True, "optimize_with_safe_paths": False}):
+            tasks.append({**base, "cls": "kLeastAbsErrors", "edges": arb, "kwargs": {"k": 1, "weight_type": "int", "optimization_options": dict(oo)}})
+            tasks.append({**base, "cls": "kMinPathError", "edges": arb, "kwargs": {"k": 2, "weight_type": "int", "optimization_options": dict(oo)}})
+    # node-weighted graphs in which a route is a single node (a node that is both source and sink)
+    for name, nodes, es, nf, k in (("one_node", ["a"], [], {"a": 3}, 1), ("two_isolated", ["a", "b"], [], {"a": 3, "b": 2}, 2),
+                                   ("edge_plus_isolated", ["a", "b", "c"], [("a", "b")], {"a": 2, "b": 2, "c": 5}, 2)):
+        base = {"name": name, "starts": [], "ends": [], "nodes": nodes, "edges": es, "node_flow": nf, "node_mode": True}
+        for cls in ("kFlowDecomp", "kMinPathError", "kLeastAbsErrors"):
+            tasks.append({**base, "cls": cls, "kwargs": {"k": k, "weight_type": "int", "flow_attr_origin": "node"}})
+        tasks.append({**base, "cls": "MinFlowDecomp", "kwargs": {"weight_type": "int", "flow_attr_origin": "node"}})
+        tasks.append({**base, "cls": "kPathCover", "node_flow": None, "kwargs": {"k": k, "cover_type": "node"}})
+        tasks.append({**base, "cls": "MinPathCover", "node_flow": None, "kwargs": {"cover_type": "node"}})
+        for cls in ("kFlowDecompCycles", "kMinPathErrorCycles", "kLeastAbsErrorsCycles"):
+            tasks.append({**base, "cls": cls, "kwargs": {"k": k, "weight_type": "int", "flow_attr_origin": "node"}})
+        tasks.append({**base, "cls": "MinFlowDecompCycles", "kwargs": {"weight_type": "int", "flow_attr_origin": "node"}})
+        tasks.append({**base, "cls": "kPathCoverCycles", "node_flow": None, "kwargs": {"k": k, "cover_type": "node"}})
+        tasks.append({**base, "cls": "MinPathCoverCycles", "node_flow": None, "kwargs": {"cover_type": "node"}})
     for i, t in enumerate(tasks):
         t["tid"] = i
     return tasks
